@@ -28,6 +28,7 @@ type bindOp struct {
 	IP   string `json:"ip"`   // "" = nil address / wildcard, "0.0.0.0", "127.0.0.1", host IP
 	Port int    `json:"port"` // 0 = ephemeral
 	Ref  int    `json:"ref"`  // close: index of an earlier successful bind (modulo)
+	V4   bool   `json:"v4,omitempty"` // hand the IP over in its 4-byte form (net.ParseIP gives 16 bytes)
 }
 
 type scenario struct {
@@ -122,7 +123,7 @@ func gen(r *harn.Rng, tier string) interface{} {
 		}
 		for i, n := 0, r.Range(2, 10); i < n; i++ {
 			x := r.Intn(100)
-			op := bindOp{IP: ips[r.Intn(len(ips))], Port: r.Pick(0, 0, 4000, 4000, 4001, 5000, 5001)}
+			op := bindOp{IP: ips[r.Intn(len(ips))], Port: r.Pick(0, 0, 4000, 4000, 4001, 5000, 5001), V4: r.Bool(0.4)}
 			switch {
 			case x < 35:
 				op.K = "listenudp"
@@ -519,7 +520,7 @@ func runBind(env *simrt.Env, sc *scenario) {
 					if want != nil && want.remote != "" && want.remote != senderAddr {
 						want = nil // a connected socket discards datagrams from other sources
 					}
-					if _, err := sender.WriteTo(tag, &net.UDPAddr{IP: net.ParseIP(o.IP), Port: o.Port}); err != nil {
+					if _, err := sender.WriteTo(tag, &net.UDPAddr{IP: ipOf(o.IP, o.V4), Port: o.Port}); err != nil {
 						env.Fail("C13/probe-write", "probe WriteTo: %v", err)
 						return
 					}
@@ -544,7 +545,7 @@ func runBind(env *simrt.Env, sc *scenario) {
 					ip := o.IP
 					var laddr *net.UDPAddr
 					if ip != "" {
-						laddr = &net.UDPAddr{IP: net.ParseIP(ip), Port: o.Port}
+						laddr = &net.UDPAddr{IP: ipOf(ip, o.V4), Port: o.Port}
 					} else if o.Port != 0 {
 						laddr = &net.UDPAddr{Port: o.Port}
 					}
@@ -640,6 +641,17 @@ func runBind(env *simrt.Env, sc *scenario) {
 	if concurrent {
 		env.SetData(h)
 	}
+}
+
+// ipOf parses an address; v4 selects the 4-byte in-memory form of an IPv4 address.
+func ipOf(s string, v4 bool) net.IP {
+	ip := net.ParseIP(s)
+	if v4 {
+		if x := ip.To4(); x != nil {
+			return x
+		}
+	}
+	return ip
 }
 
 // judge returns "" if the outcome of a bind is what the rule demands.
